@@ -149,6 +149,26 @@ unsafe fn va_allocate_over(layout: Layout) -> Result<NonNull<[u8]>, AllocError> 
     }
 }
 
+
+/// Poison a block that is being returned to the base allocator (the allocator owns it during `deallocate`).
+/// Measured: Kani 0.68 / CBMC 6.11 do NOT flag a read through a pointer into a block released with
+/// `std::alloc::dealloc` ("dereference failure: deallocated dynamic object" comes back SUCCESS and the read returns
+/// the old value), so "a returned block is never read afterwards" (C05) is invisible to the pointer checks. With the
+/// poison, a later read of the block (an allocator handle or a chunk header that lived inside it) yields 0xDD bytes:
+/// the handle check in `VAStateful::deallocate` fails, and a chunk-list pointer read from it is an invalid pointer.
+#[inline(always)]
+unsafe fn scrub(p: *mut u8, n: usize) {
+    macro_rules! arms {
+        ($($k:literal)*) => {
+            match n {
+                $($k => unsafe { core::ptr::write_bytes(p, 0xDD, $k) },)*
+                _ => {}
+            }
+        };
+    }
+    arms!(48 56 64 72 80 88 96 104 112 120 128 136 144 152 160 168 176 184 192 200 208 216 224 232 240 248 256 264 272 280);
+}
+
 unsafe fn va_deallocate(ptr: NonNull<u8>, layout: Layout) {
     unsafe {
         let addr = ptr.as_ptr() as usize;
@@ -162,6 +182,7 @@ unsafe fn va_deallocate(ptr: NonNull<u8>, layout: Layout) {
                 check!(layout.size() >= LOG[k].requested && layout.size() <= LOG[k].granted, "C05: block released with a size outside [requested, granted]");
                 LOG[k].live = false;
                 NRELEASED += 1;
+                scrub(ptr.as_ptr(), LOG[k].granted);
                 std::alloc::dealloc(ptr.as_ptr(), Layout::from_size_align_unchecked(LOG[k].granted, LOG[k].align));
             }
             k += 1;
@@ -222,6 +243,7 @@ unsafe impl<const OFF: usize> Allocator for VAOff<OFF> {
                     check!(layout.size() == LOG[k].requested, "C05: block released with a size outside [requested, granted]");
                     LOG[k].live = false;
                     NRELEASED += 1;
+                    scrub(ptr.as_ptr(), LOG[k].granted);
                     std::alloc::dealloc(ptr.as_ptr().sub(OFF), Layout::from_size_align_unchecked(LOG[k].granted + OFF, 64));
                 }
                 k += 1;
